@@ -2,7 +2,7 @@
 //! SmallVec spill paths (more than 16 segments / 512 bytes) are asserted
 //! unreachable by the stubs, hence NOT verified: outside the claim.
 use crate::oracle::{
-    comps_of, is_dot, is_dotdot, lists_equal, lists_equal_mod_shield, normalize_list, seg, split_path, split_ref, strip_shield, SegList,
+    comps_of, is_dot, is_dotdot, normalize_list, plain_rendering_ok, rendering_eq_k, seg, shield_permitted, split_path, split_ref, SegList,
 };
 use crate::sym::{as_str, assume, bytes_eq, is_subslice, vec_of, Text};
 use crate::{cover, tables};
@@ -104,24 +104,26 @@ pub fn c09_normalized_segments_n6() {
     normalized_segments::<6>()
 }
 
-/// The result of a normalisation, as text: its sequence is `want` (plus the
-/// trailing empty segment when `trailing`), modulo the shield; it contains no
-/// removable dot segment any more (idempotence); absolute/relative preserved.
-fn check_result(b: &[u8], out: &[u8], trailing: bool, what_abs: bool) {
-    let l = SegList::of(&split_path(b));
-    let mut want = normalize_list(b, &l, what_abs);
+/// The result of a normalisation is exactly `prefix ++ rendering ++ suffix`
+/// where the rendering is that of the RFC 5.2.4 / Errata 4547 sequence of the
+/// old path (plus the empty segment left by a final dot segment when
+/// `trailing`), plain when that reads back faithfully, or behind the `.` shield
+/// when the first segment is empty or contains ':'.  This one comparison gives
+/// the segment sequence, idempotence (the sequence has no removable dot
+/// segment), absolute/relative preservation and "nothing else changed".
+/// `out` is read at concrete positions only.
+fn result_is_expected(prefix: &[u8], oldp: &[u8], suffix: &[u8], out: &[u8], trailing: bool, k: usize, maxseg: usize) -> bool {
+    let absolute = oldp.first() == Some(&b'/');
+    let l = SegList::of(&split_path(oldp));
+    let mut want = normalize_list(oldp, &l, absolute);
     if trailing && l.n > 0 && want.n > 0 {
-        let last = seg(b, l.r[l.n - 1]);
+        let last = seg(oldp, l.r[l.n - 1]);
         if is_dot(last) || is_dotdot(last) {
             want.push((0, 0));
         }
     }
-    let got = SegList::of(&split_path(out));
-    assert!(lists_equal_mod_shield(b, &want, out, &got), "C09: normalised path is not the RFC 5.2.4 / Errata 4547 sequence");
-    // idempotence: the result's sequence equals (modulo the shield) a sequence
-    // that contains no removable dot segment, so normalising it again is the
-    // identity by the oracle's own definition; no second pass is executed.
-    assert!(out.is_empty() && b.is_empty() || (out.first() == Some(&b'/')) == what_abs || (out.is_empty() && !what_abs), "C09: absolute/relative not preserved");
+    (plain_rendering_ok(oldp, &want, absolute) && rendering_eq_k(out, prefix, oldp, &want, absolute, false, suffix, k, maxseg))
+        || (shield_permitted(oldp, &want) && rendering_eq_k(out, prefix, oldp, &want, absolute, true, suffix, k, maxseg))
 }
 
 fn normalized_copy<const N: usize>() {
@@ -131,14 +133,23 @@ fn normalized_copy<const N: usize>() {
     let p = unsafe { uri::Path::new_unchecked(b) };
     let r = p.normalized();
     let out = r.as_bytes();
+    assert!(result_is_expected(b"", b, b"", out, true, N + 3, N + 2), "C09: normalized() is not the RFC 5.2.4 / Errata 4547 rendering");
     assert!(tables::t_uri_path_valid_k(out, N + 3), "C04/C09: normalized() is not a valid path");
-    check_result(b, out, true, b.first() == Some(&b'/'));
     cover!(out.len() < b.len(), "shorter after normalisation");
     cover!(out.last() == Some(&b'/') && b.last() == Some(&b'.'), "trailing '/' left by a final dot segment");
     forget(r);
 }
 
-// @h prop=C09 tier=quick kind=check timeout=2400 mem=20 bound="uri::Path text <= 5 bytes" encodes="PathImpl::normalized;PathMutImpl::{symbolic_push,push,pop};to_path_buf"
+// @h prop=C09 tier=quick kind=check timeout=2400 mem=20 bound="uri::Path text <= 4 bytes" encodes="PathImpl::normalized;PathMutImpl::{symbolic_push,push,pop};to_path_buf"
+#[cfg_attr(kani, kani::proof)]
+#[cfg_attr(kani, kani::unwind(9))]
+#[cfg_attr(kani, kani::stub(std::vec::Vec::resize, crate::stubs::vec_resize))]
+#[cfg_attr(kani, kani::stub(<[u8]>::to_vec, crate::stubs::slice_to_vec))]
+pub fn c09_normalized_copy_n4() {
+    normalized_copy::<4>()
+}
+
+// @h prop=C09 tier=thorough kind=check timeout=2400 mem=20 bound="uri::Path text <= 5 bytes" encodes="PathImpl::normalized;PathMutImpl::{symbolic_push,push,pop};to_path_buf"
 #[cfg_attr(kani, kani::proof)]
 #[cfg_attr(kani, kani::unwind(12))]
 #[cfg_attr(kani, kani::stub(std::vec::Vec::resize, crate::stubs::vec_resize))]
@@ -154,15 +165,26 @@ fn normalize_in_place<const N: usize>() {
     let mut x = unsafe { uri::PathBuf::new_unchecked(vec_of(b)) };
     x.normalize();
     let out = x.as_bytes();
+    assert!(result_is_expected(b"", b, b"", out, false, N + 3, N + 2), "C09: normalize() did not rewrite the path to the RFC 5.2.4 / Errata 4547 sequence");
     assert!(tables::t_uri_path_valid_k(out, N + 3), "C04/C09: normalize() left an invalid path");
-    check_result(b, out, false, b.first() == Some(&b'/'));
     cover!(out.len() + 3 <= b.len(), "at least three bytes removed");
     forget(x);
 }
 
-// @h prop=C09,C04 tier=quick kind=check timeout=3000 mem=24 bound="uri::PathBuf text <= 5 bytes" encodes="PathMutImpl::normalize;NormalizedSegmentsImpl::new;SmallVec<[u8;512]> push/extend_from_slice (stubbed, spill asserted unreachable);utils::replace"
+// @h prop=C09,C04 tier=quick kind=check timeout=3000 mem=24 bound="uri::PathBuf text <= 4 bytes" encodes="PathMutImpl::normalize;NormalizedSegmentsImpl::new;SmallVec<[u8;512]> push/extend_from_slice (stubbed, spill asserted unreachable);utils::replace"
 #[cfg_attr(kani, kani::proof)]
-#[cfg_attr(kani, kani::unwind(8))]
+#[cfg_attr(kani, kani::unwind(9))]
+#[cfg_attr(kani, kani::stub(std::vec::Vec::resize, crate::stubs::vec_resize))]
+#[cfg_attr(kani, kani::stub(smallvec::SmallVec::try_grow, crate::stubs::sv_try_grow))]
+#[cfg_attr(kani, kani::stub(smallvec::SmallVec::push, crate::stubs::sv_push))]
+#[cfg_attr(kani, kani::stub(smallvec::SmallVec::extend_from_slice, crate::stubs::sv_extend_from_slice))]
+pub fn c09_normalize_in_place_n4() {
+    normalize_in_place::<4>()
+}
+
+// @h prop=C09,C04 tier=thorough kind=check timeout=3000 mem=24 bound="uri::PathBuf text <= 5 bytes" encodes="PathMutImpl::normalize;NormalizedSegmentsImpl::new;SmallVec<[u8;512]> push/extend_from_slice (stubbed, spill asserted unreachable);utils::replace"
+#[cfg_attr(kani, kani::proof)]
+#[cfg_attr(kani, kani::unwind(10))]
 #[cfg_attr(kani, kani::stub(std::vec::Vec::resize, crate::stubs::vec_resize))]
 #[cfg_attr(kani, kani::stub(smallvec::SmallVec::try_grow, crate::stubs::sv_try_grow))]
 #[cfg_attr(kani, kani::stub(smallvec::SmallVec::push, crate::stubs::sv_push))]
@@ -182,31 +204,32 @@ fn normalize_embedded<const N: usize>() {
     let mut x = unsafe { UriRefBuf::new_unchecked(vec_of(b)) };
     x.path_mut().normalize();
     let out = x.as_bytes();
+    // scheme, authority, query and fragment byte-identical, path = the expected rendering
+    assert!(
+        result_is_expected(&b[..before.path.0], cb.path, &b[before.path.1..], out, false, N + 3, N + 2),
+        "C09: normalising the embedded path changed something else, or the path is not the expected sequence"
+    );
     assert!(tables::t_uri_uriref_valid_k(out, N + 3), "C04/C09: normalize() left an invalid URI reference");
-    let after = split_ref(out);
-    let ca = comps_of(out, &after);
-    macro_rules! same_opt {
-        ($p:expr, $q:expr) => {
-            match ($p, $q) {
-                (None, None) => true,
-                (Some(u), Some(v)) => bytes_eq(u, v),
-                _ => false,
-            }
-        };
-    }
-    assert!(same_opt!(cb.scheme, ca.scheme), "C09: normalising the path changed the scheme");
-    assert!(same_opt!(cb.authority, ca.authority), "C09: normalising the path changed the authority");
-    assert!(same_opt!(cb.query, ca.query), "C09: normalising the path changed the query");
-    assert!(same_opt!(cb.fragment, ca.fragment), "C09: normalising the path changed the fragment");
-    check_result(cb.path, ca.path, false, cb.path.first() == Some(&b'/'));
-    cover!(cb.scheme.is_some() && ca.path.len() < cb.path.len(), "with a scheme, path got shorter");
-    cover!(cb.authority.is_some() && ca.path.len() < cb.path.len(), "with an authority, path got shorter");
+    cover!(cb.scheme.is_some() && out.len() < b.len(), "with a scheme, path got shorter");
+    cover!(cb.authority.is_some() && out.len() < b.len(), "with an authority, path got shorter");
+    cover!(out.len() > b.len(), "a shield was inserted");
     forget(x);
 }
 
-// @h prop=C09,C04:thorough tier=quick kind=check timeout=3000 mem=26 bound="UriRefBuf text <= 5 bytes" encodes="RiRefBufImpl::path_mut;PathMutImpl::normalize (embedded);utils::replace"
+// @h prop=C09,C04:thorough tier=quick kind=check timeout=3000 mem=26 bound="UriRefBuf text <= 4 bytes" encodes="RiRefBufImpl::path_mut;PathMutImpl::normalize (embedded);utils::replace"
 #[cfg_attr(kani, kani::proof)]
-#[cfg_attr(kani, kani::unwind(8))]
+#[cfg_attr(kani, kani::unwind(9))]
+#[cfg_attr(kani, kani::stub(std::vec::Vec::resize, crate::stubs::vec_resize))]
+#[cfg_attr(kani, kani::stub(smallvec::SmallVec::try_grow, crate::stubs::sv_try_grow))]
+#[cfg_attr(kani, kani::stub(smallvec::SmallVec::push, crate::stubs::sv_push))]
+#[cfg_attr(kani, kani::stub(smallvec::SmallVec::extend_from_slice, crate::stubs::sv_extend_from_slice))]
+pub fn c09_normalize_embedded_n4() {
+    normalize_embedded::<4>()
+}
+
+// @h prop=C09,C04 tier=thorough kind=check timeout=3000 mem=26 bound="UriRefBuf text <= 5 bytes" encodes="RiRefBufImpl::path_mut;PathMutImpl::normalize (embedded);utils::replace"
+#[cfg_attr(kani, kani::proof)]
+#[cfg_attr(kani, kani::unwind(10))]
 #[cfg_attr(kani, kani::stub(std::vec::Vec::resize, crate::stubs::vec_resize))]
 #[cfg_attr(kani, kani::stub(smallvec::SmallVec::try_grow, crate::stubs::sv_try_grow))]
 #[cfg_attr(kani, kani::stub(smallvec::SmallVec::push, crate::stubs::sv_push))]
